@@ -27,7 +27,7 @@ def corpus(tier, seed):
 
 def run(tier, seed, replay=None):
     return EL.standard_run(
-        PID, tier, seed, replay, MC, corpus,
+        PID, tier, seed, replay, MC, corpus, wide={},
         nontrivial=lambda t: any(e.get("tiebreaks") for e in t["events"]),
         role3={"quick": [dict(family="oneshot", max_ballots=1, max_w=2)], "thorough": [dict(family="oneshot", max_ballots=2, max_w=1), dict(family="tiered", max_ballots=3, max_w=2)]},
         rule_text="role 1: TLC checks on the bounded model that a step has probability label < 1 only if the round it appends records a "
